@@ -156,6 +156,8 @@ def pairs(seed, n):
           ("%Y-%m-%d %H:%M:%S", "2020-01-02\v03:04:05"), ("%Y-%m-%d", "2020-01-02\f"), ("%Y-%m-%d", "\v\f\r2020-01-02"), ("%Y-%m-%d %Z", "2020-01-02 UTC\fjunk"),
           ("%Y-%m-%d %Z", "2020-01-02 UTC\vjunk"), ("%Y-%m-%d %Z", "2020-01-02 UTC\rjunk"), ("%Y %m", "2020\r\n05"), ("%Y %m", "2020\xa005"), ("%Y\v%m", "2020 05"),
           ("%Y\f%m", "2020\t05"), ("%Z", "A\x0bB"), ("%Z %Y", "A\x0c2020"),
+          ("%H %Ez:%M", "10 +01:5"), ("%H:%M %E*z:%S", "10:00 +01:02:7"), ("%H %z:%M", "10 +01:5"), ("%H %Ez:%M", "10 +01:05"), ("%H %Ez %M", "10 +01: 5"),
+          ("%H %E*z", "10 +01:02:"), ("%H %Ez", "10 +01:"), ("%H%Ez:", "10+01:"), ("%H %Ezx", "10 +01:3x"),
           ("%Z %z", "UTC +0100"), ("%z %Z", "+0100 PST"), ("%Z", "Europe/Paris"), ("%Z", "A B")]
     out += [(a.encode(), b.encode()) for a, b in D]
     for _ in range(n // 10):     # unstructured pairs
